@@ -62,6 +62,7 @@ func main() {
 	big := flag.String("big", "", "big-collection mode: sizes around RangeDeleteNum, e.g. 4999,5000,5001 (-types hszl, -policy local|compact|mix)")
 	live := flag.Bool("live", false, "third leg: send the generated sequences over the redis protocol to a real single-replica server (proposer-side handlers); no expiry commands, local policy, W/R/O lines only")
 	sweep := flag.Bool("sweep", false, "expiry-sweep mode (local_deletion): collections with an expiry, one synchronous pass of the background sweep, a write to the same collection, observation")
+	bigList := flag.Bool("biglist", false, "big-list mode: lists of 5003..12010 elements, LTRIM cutting more than RangeDeleteNum at the tail / head / both ends, regrowth at both ends")
 	flag.BoolVar(&bigFirst, "bigfirst", false, "big-collection mode: only the first way of removing a collection per type")
 	flag.Parse()
 
@@ -75,6 +76,8 @@ func main() {
 		lines = hx.ReadLines(*replay)
 	} else if *sweep {
 		lines = genSweep(*types, *seed)
+	} else if *bigList {
+		lines = genBigList(*policy, *seed)
 	} else if *big != "" {
 		lines = genBig(*big, *types, *policy, *seed)
 	} else if *exh > 0 {
@@ -1211,6 +1214,97 @@ func (g *gen) readCmd() []string {
 		}
 	}
 	return []string{"get", k}
+}
+
+// ---------------------------------------------------------------- big lists (LTRIM above RangeDeleteNum)
+
+// genBigList: lists built with a few multi-value pushes, an LTRIM that cuts more than RangeDeleteNum elements
+// (one DeleteRange per cut end) at the tail, at the head, at both ends; then reads at both ends, the engine key
+// counts, regrowth at both ends past the old positions, pops, reads, dump, counters.
+func genBigList(policy string, seed int64) []string {
+	var lines []string
+	seq := 0
+	pols := []string{policy}
+	if policy == "mix" {
+		pols = []string{"local", "compact"}
+	}
+	name := func(p string, i int) string { return fmt.Sprintf("%s%05d", p, i) }
+	type cas struct {
+		rp1, lp, rp2 int // RPUSH rp1, LPUSH lp, RPUSH rp2 elements (each in chunks of <= 5000)
+		start, stop  string
+	}
+	cases := []cas{
+		{5003, 0, 0, "0", "0"},             // tail cut of 5002
+		{5000, 0, 1880, "5100", "-1"},      // head cut of 5100
+		{5000, 2010, 5000, "5005", "-5006"}, // both cuts of 5005
+		{5003, 0, 0, "1", "-5002"},         // small head cut, tail cut of 5001: keeps 1
+		{5000, 0, 2, "5001", "5001"},       // head cut of 5001, tail keeps exactly one
+	}
+	for _, pol := range pols {
+		for _, c := range cases {
+			seq++
+			k := "t:blist"
+			cnt := 0
+			ts := tsBase + seed*1000
+			emit := func(kind string, f ...string) {
+				cnt++
+				lines = append(lines, fmt.Sprintf("l%d.%d\t%s\t%s", seq, cnt, kind, strings.Join(f, "\t")))
+			}
+			w := func(a ...string) {
+				ts += 1500000001
+				emit("W", "0", "-", strconv.FormatInt(ts, 10), hexArgs(a...))
+			}
+			push := func(cmd, pre string, n int) {
+				for from := 0; from < n; from += 5000 {
+					to := from + 5000
+					if to > n {
+						to = n
+					}
+					a := []string{cmd, k}
+					for i := from; i < to; i++ {
+						a = append(a, name(pre, i))
+					}
+					w(a...)
+				}
+			}
+			reads := func() {
+				emit("R", hexArgs("llen", k))
+				emit("R", hexArgs("lindex", k, "0"))
+				emit("R", hexArgs("lindex", k, "-1"))
+				emit("R", hexArgs("lrange", k, "0", "4"))
+				emit("R", hexArgs("lrange", k, "-5", "-1"))
+				emit("E")
+			}
+			emit("S", pol, strconv.FormatInt(genNow, 10))
+			push("rpush", "a", c.rp1)
+			push("lpush", "b", c.lp)
+			push("rpush", "c", c.rp2)
+			emit("R", hexArgs("llen", k))
+			w("ltrim", k, c.start, c.stop)
+			reads()
+			emit("R", hexArgs("lrange", k, "0", "-1"))
+			// regrow both ends; after a tail cut, past the old tail position
+			if c.stop == "0" {
+				push("rpush", "d", 5003)
+				emit("R", hexArgs("llen", k))
+				emit("R", hexArgs("lrange", k, "-3", "-1"))
+				w("ltrim", k, "0", "2")
+			}
+			w("rpush", k, "z1", "z2")
+			w("lpush", k, "y1", "y2")
+			reads()
+			w("lpop", k)
+			w("rpop", k)
+			w("lset", k, "0", "h")
+			w("lset", k, "-1", "t")
+			reads()
+			emit("O", "L", hx.H([]byte(k)))
+			emit("D", hexArgs(k))
+			emit("T", hexArgs("t"))
+			emit("E")
+		}
+	}
+	return lines
 }
 
 // ---------------------------------------------------------------- expiry sweep (local_deletion)
